@@ -20,7 +20,8 @@ RULE = ("table: a table metric (y_true carries the cell id, y_pred the control s
         "tables: 1..6 groups x 1..3 strata (0..2 control features, some combinations empty), values drawn from {0, +-small, "
         "+-large, all-equal, random, integers}; every aggregate x method x errors x callable/dict is compared with the stated "
         "formula per stratum over non-NaN cells. weighted: real sample-weighted means (selection_rate, accuracy, "
-        "mean_prediction) for to_overall <= between_groups. distinct = distinct (#groups, #strata, #control features, form, "
+        "mean_prediction) for to_overall <= between_groups. An icontract postcondition on MetricFrame.__init__ re-checks the stated "
+        "inequalities on every frame built during the workload and while the repository's metric tests run (class repo_tests). distinct = distinct (#groups, #strata, #control features, form, "
         "value class, sign pattern, zero pattern); non-trivial = >=2 non-empty groups with >=2 distinct values, or an "
         "explicit zero-denominator / all-equal class.")
 ASSUMPTIONS = ["scalar metrics", "0/0 follows IEEE: NaN or skipped", "for negative ratios r<0 (mixed-sign tables) the statement's "
@@ -30,9 +31,16 @@ METHODS = ["between_groups", "to_overall"]
 ERRORS = ["raise", "coerce"]
 
 
+def setup(tier, seed):
+    from vf.monitors import contracts
+
+    contracts.attach()
+
+
 def cases(tier, seed):
     k = 700 if tier == "quick" else 30000
-    return [("table", i) for i in range(k)] + [("weighted", i) for i in range(k // 2)]
+    tests = ["test/unit/metrics/test_metricframe_aggregates.py"] if tier == "quick" else ["test/unit/metrics"]
+    return [("table", i) for i in range(k)] + [("weighted", i) for i in range(k // 2)] + [("repo_tests", tests)]
 
 
 def draw_values(rng, m, vclass):
@@ -80,9 +88,14 @@ class TableMetric:
 def run_case(cls, key, seed, ctx):
     from fairlearn.metrics import MetricFrame
 
+    from vf.monitors import contracts
+
+    if cls == "repo_tests":
+        return contracts.repo_tests_case(ctx, "C02:", key)
     rng = rng_for(seed, ID, cls, key)
     if cls == "weighted":
-        return run_weighted(ctx, rng, MetricFrame)
+        run_weighted(ctx, rng, MetricFrame)
+        return contracts.flush_into(ctx, "C02:")
     nctl = int(gen.pick(rng, [0, 0, 1, 1, 2]))
     ng = int(rng.integers(1, 7))
     nsf = 1 if ng < 4 or rng.random() < 0.6 else 2
@@ -163,6 +176,7 @@ def run_case(cls, key, seed, ctx):
                      sample={"strata": [list(s) for s in strata], "cells": [[list(c[1]), list(c[2]), float(cv[i])] for i, c in enumerate(cells)],
                              "overall": {str(k): float(v) for k, v in ov.items()}, "form": form, "value_class": vclass[j]})
         check_table(ctx, mf, mets[j].__name__, form, nctl, strata, cells, cv, ov)
+    contracts.flush_into(ctx, "C02:")
 
 
 def _get(res, name, form, nctl, stratum):
